@@ -913,3 +913,118 @@ impl World {
         });
     }
 }
+
+/// C31: the shape of a document at `heads`: object types, number of keys, sequence order and lengths, text widths
+/// and conflict multiplicities - values, key names and ids forgotten.  Children of maps and the values of one
+/// register are sorted, so the string is canonical.
+pub fn shape_at(d: &Automerge, heads: Option<&[ChangeHash]>) -> String {
+    fn reg(d: &Automerge, obj: &automerge::ObjId, p: automerge::Prop, heads: Option<&[ChangeHash]>, depth: usize) -> String {
+        let all = match heads {
+            Some(h) => d.get_all_at(obj, p, h),
+            None => d.get_all(obj, p),
+        }
+        .unwrap_or_default();
+        let mut vs: Vec<String> = all
+            .iter()
+            .map(|(v, id)| match v {
+                automerge::Value::Object(_) => obj_shape(d, id, heads, depth + 1),
+                automerge::Value::Scalar(s) => match s.as_ref() {
+                    automerge::ScalarValue::Str(_) => "s".to_string(),
+                    automerge::ScalarValue::Int(_) | automerge::ScalarValue::Uint(_) | automerge::ScalarValue::F64(_) => "n".to_string(),
+                    automerge::ScalarValue::Counter(_) => "c".to_string(),
+                    automerge::ScalarValue::Timestamp(_) => "t".to_string(),
+                    automerge::ScalarValue::Boolean(_) => "b".to_string(),
+                    automerge::ScalarValue::Bytes(_) => "y".to_string(),
+                    automerge::ScalarValue::Null => "0".to_string(),
+                    _ => "u".to_string(),
+                },
+            })
+            .collect();
+        vs.sort();
+        format!("({})", vs.join("|"))
+    }
+    fn obj_shape(d: &Automerge, obj: &automerge::ObjId, heads: Option<&[ChangeHash]>, depth: usize) -> String {
+        if depth > 6 {
+            return "...".into();
+        }
+        match d.object_type(obj) {
+            Ok(automerge::ObjType::Map) | Ok(automerge::ObjType::Table) => {
+                let keys: Vec<String> = match heads {
+                    Some(h) => d.keys_at(obj, h).collect(),
+                    None => d.keys(obj).collect(),
+                };
+                let mut kids: Vec<String> = keys.iter().map(|k| reg(d, obj, automerge::Prop::Map(k.clone()), heads, depth)).collect();
+                kids.sort();
+                format!("M{{{}}}", kids.join(","))
+            }
+            Ok(automerge::ObjType::List) => {
+                let len = match heads {
+                    Some(h) => d.length_at(obj, h),
+                    None => d.length(obj),
+                };
+                let kids: Vec<String> = (0..len).map(|i| reg(d, obj, automerge::Prop::Seq(i), heads, depth)).collect();
+                format!("L[{}]", kids.join(","))
+            }
+            Ok(automerge::ObjType::Text) => {
+                let len = match heads {
+                    Some(h) => d.length_at(obj, h),
+                    None => d.length(obj),
+                };
+                // (mark runs are not part of the shape: values are replaced independently, so equal
+                // adjacent runs may split)
+                format!("T{}", len)
+            }
+            Err(_) => "?".into(),
+        }
+    }
+    obj_shape(d, &automerge::ObjId::Root, heads, 0)
+}
+
+impl World {
+    /// C31: anonymize replica r and log both change graphs (in get_changes order) and the shapes at the current
+    /// heads and at every single change of both documents
+    pub fn probe_anonymize(&mut self, r: usize) {
+        let ev = json!({"ev":"anon","r":r+1});
+        self.guarded(r, ev, |w| {
+            let d = &w.reps[r];
+            let side = |x: &Automerge| -> J {
+                let cs = x.get_changes(&[]);
+                let idx: BTreeMap<ChangeHash, usize> = cs.iter().enumerate().map(|(i, c)| (c.hash(), i + 1)).collect();
+                let actors: Vec<ActorId> = {
+                    let mut a: Vec<ActorId> = cs.iter().map(|c| c.actor_id().clone()).collect();
+                    a.sort();
+                    a.dedup();
+                    a
+                };
+                let changes: Vec<J> = cs
+                    .iter()
+                    .map(|c| {
+                        let mut deps: Vec<usize> = c.deps().iter().filter_map(|h| idx.get(h).copied()).collect();
+                        deps.sort();
+                        json!({"seq": c.seq() as i64, "nops": c.len() as i64, "deps": deps,
+                               "actor": actors.iter().position(|a| a == c.actor_id()).unwrap_or(0) as i64 + 1,
+                               "shape": shape_at(x, Some(&[c.hash()]))})
+                    })
+                    .collect();
+                json!({"changes": changes, "shape": shape_at(x, None), "nheads": x.get_heads().len()})
+            };
+            match d.anonymize() {
+                Ok(a) => {
+                    let bytes = a.save();
+                    let reload = match Automerge::load(&bytes) {
+                        Ok(b) => {
+                            let mut h1 = a.get_heads();
+                            let mut h2 = b.get_heads();
+                            h1.sort();
+                            h2.sort();
+                            h1 == h2 && shape_at(&b, None) == shape_at(&a, None)
+                        }
+                        Err(_) => false,
+                    };
+                    json!({"res":"ok","orig": side(d), "anon": side(&a), "reload": reload})
+                }
+                Err(e) => json!({"res": format!("err:{}", e).chars().take(80).collect::<String>()}),
+            }
+        });
+    }
+}
